@@ -131,7 +131,7 @@ CONSTANTS = {
         ("SH_CSV_WRITER_BUILD", "arrow-csv/src/writer.rs", r"\.delimiter\(self\.delimiter\)\s*\.quote\(self\.quote\)\s*\.quote_style\(self\.quote_style\)\s*\.double_quote\(self\.double_quote\)\s*\.escape\(self\.escape\)\s*\.terminator\(terminator\)()", "intlist"),
         ("SH_CSV_PARSER", "arrow-csv/src/reader/mod.rs", r"let mut builder = csv_core::ReaderBuilder::new\(\);\s*builder\.escape\(self\.escape\);\s*builder\.comment\(self\.comment\);\s*if let Some\(c\) = self\.delimiter \{\s*builder\.delimiter\(c\);\s*\}\s*if let Some\(c\) = self\.quote \{\s*builder\.quote\(c\);\s*\}\s*if let Some\(t\) = self\.terminator \{\s*builder\.terminator\(csv_core::Terminator::Any\(t\)\);\s*\}\s*builder\.build\(\)()", "intlist"),
         ("SH_CSV_NULL", "arrow-csv/src/reader/mod.rs", r"fn is_null\(&self, s: &str\) -> bool \{\s*match &self\.0 \{\s*Some\(r\) => r\.is_match\(s\),\s*None => s\.is_empty\(\),()", "intlist"),
-        # statements introduced by the repairs e150153 / cca1e8c / da4266d / c4c0c75 / 398e708: reverting one of them is LOST
+        # statements introduced by the repairs 11fffc0 / 5656e05 / 5e7352b / 23ea81a / ab184de: reverting one of them is LOST
         ("SH_LIST_VALUES", _ENC, r"encode_blocked_range\(out, start, end, \|out, row\| self\.values\.encode\(out, row\)\)()", "intlist"),
         ("SH_MAP_VALUES", _ENC, r"let write_item = \|out: &mut W, j: usize\| self\.values\.encode\(out, j\);()", "intlist"),
         ("SH_VIEW_NULLS", _REC, r"Self::StringView\(offsets, values\) => \{\s*let offsets = flush_offsets\(offsets\);\s*let values = flush_values\(values\);\s*let array = StringArray::try_new\(offsets, values\.into\(\), nulls\)\?;\s*Arc::new\(StringViewArray::from_iter\(array\.iter\(\)\)\)()", "intlist"),
